@@ -315,6 +315,39 @@ def self_changing(ctx):
         ctx.viol.append(Violation("origin lookup disagrees with where the byte came from: " + bad[1], rp))
 
 
+# directive-free texts: every byte of the output is a copy of a source byte, also the white space and comments that the loop
+# emits together with a string literal or an escaped identifier (and, by the known class D6, once more)
+COPIED = ['import "DPI-C" function void f();\n', 'string s = "abc" /* note */ ;\n', 'wire \\bus+1 ;\n', '"s"  b\n', '\\esc   // c\nx\n',
+          'x = "a\\"b"   +   "c" ; // d\n', 'y \\e1 \t \\e2\n\n z\n', '"é"  /* é */  \\é \n']
+
+
+def copy_equal(ctx):
+    import ppx
+    bad = None
+    for t in COPIED:
+        pc = ppx.PC({"top.sv": t})
+        c = pc.case("ce", ("text", "origins"))
+        lines = run_harness("api", [c], "c03ce").get("ce", [])
+        ctx.corr_cases += 1
+        if "ok" not in lines:
+            ctx.count("copy_equal_rejected"); continue
+        text = unhx([l for l in lines if l.startswith("text ")][0].split()[1])
+        org = parse_origins([l for l in lines if l.startswith("origins")][0])
+        src = t.encode()
+        ctx.corr_nontrivial.add(sha(t))
+        for i, ch in enumerate(text):
+            o = org[i] if i < len(org) else None
+            if o is None or o[0] != "top.sv" or o[1] >= len(src) or src[o[1]] != ch:
+                bad = bad or (t, "output byte %d (%r) has origin %r, where the source holds %r" % (i, chr(ch), o, chr(src[o[1]]) if o and o[1] < len(src) else None))
+                break
+    ctx.obl("search-oracle:in directive-free text every output byte maps to an equal source byte (strings and escaped identifiers with their trivia included)",
+            "oracle", bad is None, bad[1] if bad else "")
+    if bad:
+        rp = write_replay(ctx, "pp-" + sha(bad[0])[:8], {"property": "C03", "kind": "preprocess(top.sv) then origin(i) for every i",
+                          "files": {"top.sv": bad[0]}, "predefs": [], "why": bad[1]})
+        ctx.viol.append(Violation("origin lookup disagrees with where the byte came from: " + bad[1], rp))
+
+
 SV_TEMPLATES = [
     "`define W 8\nmodule m;\n  wire [`W-1:0] w;\n`include \"inc.svh\"\nendmodule\n",
     "module m;\n`ifdef X\n wire a;\n`else\n wire b;  \n`endif   \n  wire c;\nendmodule\n",
@@ -365,6 +398,7 @@ def check(ctx):
     op_level(ctx, 400 if ctx.quick() else 6000)
     api_level(ctx, 200 if ctx.quick() else 3000)
     self_changing(ctx)
+    copy_equal(ctx)
     token_level(ctx)
 
 
